@@ -21,16 +21,27 @@ def frame(b: bytes) -> bytes:
     return struct.pack("!H", len(b)) + b
 
 
-def mk_query(id_, labels, qtype=1, rd=1, opcode=0, flags_extra=0) -> bytes:
+def _qsec(labels, qtype, qs):
+    """question section: `qs` = explicit list of (labels, qtype[, qclass]) — any length, 0 included — else the single question"""
+    qs = [(labels, qtype)] if qs is None else list(qs)
+    return qs, b"".join(D.wire_name(q[0]) + struct.pack("!HH", q[1], q[2] if len(q) > 2 else 1) for q in qs)
+
+
+def mk_query(id_, labels, qtype=1, rd=1, opcode=0, flags_extra=0, qs=None, qdcount=None) -> bytes:
     flags = ((opcode & 15) << 11) | ((rd & 1) << 8) | flags_extra
-    return struct.pack("!HHHHHH", id_, flags, 1, 0, 0, 0) + D.wire_name(labels) + struct.pack("!HH", qtype, 1)
+    qs, sec = _qsec(labels, qtype, qs)
+    return struct.pack("!HHHHHH", id_, flags, len(qs) if qdcount is None else qdcount, 0, 0, 0) + sec
 
 
-def mk_reply(id_, labels, qtype=1, rcode=0, n_answers=1, rd=1, opcode=0, compress=True) -> bytes:
+def mk_reply(id_, labels, qtype=1, rcode=0, n_answers=1, rd=1, opcode=0, compress=True, qs=None, qdcount=None) -> bytes:
     flags = 0x8000 | ((opcode & 15) << 11) | ((rd & 1) << 8) | 0x80 | (rcode & 15)
-    b = struct.pack("!HHHHHH", id_, flags, 1, n_answers, 0, 0) + D.wire_name(labels) + struct.pack("!HH", qtype, 1)
+    multi = qs is not None
+    qs, sec = _qsec(labels, qtype, qs)
+    owner = qs[0][0] if qs else [b"x"]
+    b = struct.pack("!HHHHHH", id_, flags, len(qs) if qdcount is None else qdcount, n_answers, 0, 0) + sec
     for i in range(n_answers):
-        b += (b"\xc0\x0c" if compress else D.wire_name(labels)) + struct.pack("!HHIH", 1, 1, 60, 4) + bytes([192, 0, 2, i + 1])
+        # the pointer to offset 12 is the first question's name; without a question there is nothing to point to
+        b += (b"\xc0\x0c" if compress and qs else D.wire_name(owner)) + struct.pack("!HHIH", 1, 1, 60, 4) + bytes([192, 0, 2, i + 1])
     return b
 
 
@@ -103,7 +114,7 @@ class Check(PropertyCheck):
                   "has id and question section of a query the client sent fires no hook and sends nothing; the state is untouched "
                   "except that the de-framer advances exactly as for solicited data), `upstream_reply_cases` (handled iff the flow "
                   "table holds a flow with that id and question section — first reply and duplicate alike), "
-                  "`buffered_server_segment_commutes`/`split_frame_around_query` (an upstream segment that completes no frame "
+                  "`reply_with_other_question_section_ignored` (whole question lists are compared: count, order, name, type, class), `buffered_server_segment_commutes`/`split_frame_around_query` (an upstream segment that completes no frame "
                   "commutes with the following client segment; a frame split around a client query = delivered whole after it). "
                   "The model is tied differentially to the real DNSLayer driven through harness/common/world.py.")
     level_note = ("trusted: Lean kernel; hand-written model tied differentially (per event: every dns hook with the flow's "
@@ -133,7 +144,10 @@ class Check(PropertyCheck):
             "streams of valid frames followed by zero-length / over-long / undecodable frames with EVERY 2-split, "
             "plus stray upstream frames (duplicate, unknown id, other question) cut in two around a new client query, plus the id of a "
             "query used again after each way its flow can end (upstream reply, addon reply in dns_request / in dns_response, "
-            "addon clear, addon error, no upstream, connect failure, still pending) x same / other question x UDP / TCP. Every case "
+            "addon clear, addon error, no upstream, connect failure, still pending) x same / other question x UDP / TCP. Question "
+            "sections hold 0, 1, 2 or 3 questions (other classes too): replies with the pending id whose section is equal / "
+            "permuted / reversed / one question changed / shorter / longer / empty / other class (all enumerated first for 0..3 "
+            "questions), QDCOUNT off by one. Every case "
             "is additionally re-run merged, byte-by-byte, with deferred hooks and (where an upstream segment completes no frame) "
             "with that segment and the following client segment exchanged. distinct = distinct case; non-trivial = at "
             "least one dns hook fired.")
@@ -247,28 +261,54 @@ class Check(PropertyCheck):
             else: out.append("e")
         return out
 
+    def _qs(self, rng, single=0.7):
+        """a question section: mostly one question; else 0, 2 or 3 (other classes too)"""
+        if rng.chance(single): return [(rng.pick(NAMES), rng.pick(QTYPES))]
+        return [(rng.pick(NAMES), rng.pick(QTYPES)) + ((rng.pick([1, 3, 255]),) if rng.chance(0.2) else ()) for _ in range(rng.pick([0, 0, 2, 2, 3]))]
+
+    def _qs_variant(self, rng, qs):
+        """a question section that differs from `qs`: permuted, one question changed, shorter, longer, empty, other class"""
+        qs = list(qs)
+        for _ in range(8):
+            k = rng.randint(0, 6)
+            if k == 0 and len(qs) > 1: v = qs[1:] + qs[:1]
+            elif k == 1 and qs:
+                j = rng.randint(0, len(qs) - 1); v = qs[:j] + [(rng.pick(NAMES), rng.pick(QTYPES))] + qs[j + 1:]
+            elif k == 2 and qs: v = qs[:-1]
+            elif k == 3: v = qs + [(rng.pick(NAMES), rng.pick(QTYPES))]
+            elif k == 4: v = []
+            elif k == 5 and qs:
+                j = rng.randint(0, len(qs) - 1); v = qs[:j] + [(qs[j][0], qs[j][1], 3)] + qs[j + 1:]
+            elif k == 6 and len(qs) > 1: v = list(reversed(qs))
+            else: v = [(rng.pick(NAMES), rng.pick(QTYPES))] * rng.pick([2, 3])
+            if [tuple(q) + ((1,) if len(q) == 2 else ()) for q in v] != [tuple(q) + ((1,) if len(q) == 2 else ()) for q in qs]: return v
+        return qs + [([b"zz"], 1)]
+
     def _schedule(self, rng):
         """message-level schedule: list of (dir, bytes | None for a close)"""
         evs, pending, sent_replies = [], [], []
         n = rng.randint(1, 7)
+        multi = 0.7 if rng.chance(0.5) else 0.97
         for _ in range(n):
             r = rng.randint(0, 99)
             if r < 42 or not pending and r < 70:
-                i, nm, qt = rng.pick(IDS), rng.pick(NAMES), rng.pick(QTYPES)
-                if pending and rng.chance(0.25): i, nm, qt = rng.pick(pending)          # retransmission
-                elif pending and rng.chance(0.25): i = rng.pick(pending)[0]             # same id, another question
-                evs.append(("c", mk_query(i, nm, qt, rd=rng.randint(0, 1), opcode=rng.pick([0, 0, 0, 2, 5]))))
-                pending.append((i, nm, qt))
+                i, qs = rng.pick(IDS), self._qs(rng, multi)
+                if pending and rng.chance(0.25): i, qs = rng.pick(pending)              # retransmission
+                elif pending and rng.chance(0.25): i = rng.pick(pending)[0]             # same id, another question section
+                evs.append(("c", mk_query(i, None, rd=rng.randint(0, 1), opcode=rng.pick([0, 0, 0, 2, 5]), qs=qs,
+                                          qdcount=(len(qs) + rng.pick([-1, 1]) if qs and rng.chance(0.03) else None))))
+                pending.append((i, qs))
             elif r < 72 and pending:
-                i, nm, qt = rng.pick(pending)
-                b = mk_reply(i, nm, qt, rcode=rng.pick([0, 0, 0, 3, 2]), n_answers=rng.randint(0, 2), compress=rng.chance(0.7))
+                i, qs = rng.pick(pending)
+                b = mk_reply(i, None, rcode=rng.pick([0, 0, 0, 3, 2]), n_answers=rng.randint(0, 2), compress=rng.chance(0.7), qs=qs)
                 evs.append(("s", b)); sent_replies.append(b)
-                if rng.chance(0.8): pending.remove((i, nm, qt))
+                if rng.chance(0.8): pending.remove((i, qs))
             elif r < 78:                                                                  # unsolicited id
-                evs.append(("s", mk_reply(rng.pick([7, 77, 4242] + IDS), rng.pick(NAMES), rng.pick(QTYPES))))
-            elif r < 84 and pending:                                                      # right id, other question
-                i, nm, qt = rng.pick(pending)
-                evs.append(("s", mk_reply(i, rng.pick(NAMES), rng.pick(QTYPES))))
+                evs.append(("s", mk_reply(rng.pick([7, 77, 4242] + IDS), None, qs=self._qs(rng, multi))))
+            elif r < 84 and pending:                                                      # right id, other question section
+                i, qs = rng.pick(pending)
+                evs.append(("s", mk_reply(i, None, n_answers=rng.randint(0, 1), qs=self._qs_variant(rng, qs),
+                                          qdcount=(1 if rng.chance(0.03) else None))))
             elif r < 88 and sent_replies:
                 evs.append(("s", rng.pick(sent_replies)))                                 # duplicated reply
             elif r < 91:
@@ -280,6 +320,21 @@ class Check(PropertyCheck):
             elif r < 97: evs.append(("cc", None))
             else: evs.append(("sc", None))
         return evs
+
+    def _multiq_cases(self, rng):
+        """a pending query with 0..3 questions x an upstream message with its id whose question section is equal / permuted /
+        one question changed / shorter / longer / empty / other class x UDP/TCP (the matching must compare the whole list)"""
+        base = [(NAMES[0], 1), (NAMES[1], 28), (NAMES[2], 15)]
+        for k in range(4):
+            qs = base[:k]
+            variants = [qs, qs[1:] + qs[:1], qs[:-1], qs + [(NAMES[3], 1)], [], [(q[0], q[1], 3) for q in qs],
+                        [(NAMES[4], 16)] + qs[1:], [(NAMES[4], 16)] * 2, list(reversed(qs))]
+            for v in variants:
+                for tr in ("udp", "tcp"):
+                    w = (lambda b: hx(frame(b))) if tr == "tcp" else hx
+                    yield {"transport": tr, "upstream": True, "conns": "", "acts": [],
+                           "events": [["c", w(mk_query(5, None, qs=qs))], ["s", w(mk_reply(5, None, n_answers=rng.randint(0, 1), qs=v))],
+                                      ["s", w(mk_reply(5, None, n_answers=0, qs=qs))]]}
 
     def _segment(self, rng, transport, evs):
         if transport == "udp":
@@ -392,6 +447,8 @@ class Check(PropertyCheck):
 
     def generate(self, rng, tier):
         for c in self._split_cases(None):
+            yield c
+        for c in self._multiq_cases(rng):
             yield c
         for ending in self.ENDINGS:
             for same in (False, True):
